@@ -1543,11 +1543,14 @@ class FileDomain(NormDomain):
     def isinstance_(self, v, cls):
         from ..core.interp import BuiltinRef
         names = []
+        from ..core.interp import ClassRef
         for c in (cls.items if isinstance(cls, Tup) else [cls]):
             if isinstance(c, BuiltinRef):
                 names.append(c.name)
             elif isinstance(c, ExtRef):
                 names.append(c.dotted.rsplit('.', 1)[-1])
+            elif isinstance(c, ClassRef):
+                names.append('class ' + c.ci.qual)         # an array / text / bytes / file is not an instance of a class of the library
             else:
                 return None
         kinds = None
